@@ -67,7 +67,16 @@ RULE = (
     "all-sync and <= 3 all-async, plus A,A,B,[B2],CHANGE,A skeletons sync / async / "
     "alternating; the reference performs each tag's load as an ordinary load of the partial's "
     "(namespace, name) in document order, with the recency updates and evictions that "
-    "implies.  Enumerated families (one representative per renaming of names / "
+    "implies.  Load-context routing: the 'tagroute' family runs the documented "
+    "SnippetsFileSystemLoader customisation (get_source serves include/render targets from "
+    "snippets/, and a user keyword variant='alt' from alt/) over CachingFileSystemLoader and "
+    "a dict-based equivalent against the same subclass of the uncached loader: every history "
+    "of length <= 3 over {load foo/bar by name, through a render tag, through an include tag, "
+    "with variant='alt'; sync/async} and {modify/delete any of the six sources}, without a "
+    "namespace key and with namespace_key='variant'; the reference keys entries by (route, "
+    "name).  Random histories also make some loads through a second Environment sharing the "
+    "loader: an entry parsed by another Environment is not an answer (miss and replace).  "
+    "Enumerated families (one representative per renaming of names / "
     "namespaces, histories end in a load, directly repeated modify/delete/fail dropped): "
     "quick = every history of length <= 3 with sync/async chosen per step + every history "
     "of length 4 whose loads are all sync or all async (file-system families, and "
@@ -1861,6 +1870,7 @@ def floors(tier: str) -> dict[str, int]:
             "ev:tag-load": 100_000,
             "globals_histories_done": 16_368,
             "tagroute_histories_done": 25_248,
+            "ev:reload-other-env": 500,
             "set:nsval_value_pairs": 110,
             "set:nsval_channels": 25,
             "reload_older_mtime": 5_000,
@@ -1893,6 +1903,7 @@ def floors(tier: str) -> dict[str, int]:
         "ev:tag-load": 1_000_000,
         "globals_histories_done": 16_368,
         "tagroute_histories_done": 25_248,
+        "ev:reload-other-env": 5_000,
         "set:nsval_value_pairs": 110,
         "set:nsval_channels": 25,
         "reload_older_mtime": 50_000,
